@@ -68,6 +68,7 @@ IMAGE_SOURCES = ["dataset_default", "dataset_custom", "md_one", "md_two", "md_fi
 CHUNK_POOL = [["stdout", "building\n"], ["stderr", "warning: something\n"], ["stdout", ""], ["stdout", "line1\nline2\nline3\n"],
               ["stderr", "café ✓\n"], ["stdout", "x" * 300 + "\n"]]
 BIG = ["stdout", "BIG:450000"]  # a chatty job: 450 kB in one chunk
+HUGE = ["stderr", "BIG:3000000"]  # and a very chatty one: 3 MB in one chunk (the total volume is a knob, thresholds are unknown)
 
 
 def prepare(prop, tier, seed):
@@ -106,6 +107,9 @@ def plan_shapes():
     shapes.append({"chunks": big, "result_at": 1, "fail_at": None, "extra": []})
     shapes.append({"chunks": big, "result_at": 1, "fail_at": 5, "extra": []})
     shapes.append({"chunks": big, "result_at": None, "fail_at": 4, "extra": []})
+    huge = [HUGE, BIG, HUGE, CHUNK_POOL[0], HUGE, HUGE]   # 12.5 MB
+    shapes.append({"chunks": huge, "result_at": 6, "fail_at": None, "extra": []})
+    shapes.append({"chunks": huge, "result_at": 1, "fail_at": 6, "extra": []})
     return shapes
 
 
@@ -181,7 +185,7 @@ def make_case(prop, tier, seed, i):
             chunks[rng.randrange(len(chunks))] = ["stdout", "\\xff\\xfe<non-utf8>"]
         if rng.random() < p_big:
             for _ in range(rng.choice([1, 3, 4])):
-                chunks.insert(rng.randrange(len(chunks) + 1), BIG)
+                chunks.insert(rng.randrange(len(chunks) + 1), BIG if rng.random() < 0.6 else HUGE)
             nch = len(chunks)
         pl = {"chunks": chunks, "result_at": rng.randrange(0, nch + 1), "fail_at": None, "extra": []}
         r = rng.random()
